@@ -45,7 +45,7 @@ def plan(tier, seed):
         dict(seeds=all_leaves, operands=ops, small=small, acts=BASE | {"op_getitem"}, lvl=2, dim=9, iforms=iforms,
              forms=forms, stride=1),
         dict(seeds=all_leaves, operands=ops, small=small, acts=BASE | {"op_getitem", "Sliced", "NoDispatch"}, lvl=3,
-             dim=9, iforms=iforms, forms=forms, stride=3, simulate=120),
+             dim=9, iforms=iforms, forms=forms, stride=3, simulate=40),
     ]
 
 
